@@ -120,11 +120,54 @@ CHECKS.update({
         technique='symbolic execution of jaxprs (brax + mjx) to z3 real terms; QF_NRA with sqrt as constrained variables; solver-folded guards', design='C10'),
 })
 
+CHECKS.update({
+    'C02': dict(
+        text='PARTIAL. generalized.integrator.integrate is symbolically executed with the State fields it reads symbolic; the solver proves the implicit-damping Euler '
+             'velocity equation (M + dt D)(qd\' - qd) = dt (qf_smooth + qf_constraint) (multiplied back through the exact solve), q\' = q + dt qd\' for hinge / slide, and the '
+             'free-joint update pos\' = pos + dt v\', quat\' parallel to quat * dq(local angular velocity) (MuJoCo mj_integratePos semantics).',
+        note='NOT decided: mass matrix == MuJoCo and SPD, bias force, passive force, total smooth force (the first-principles mechanics oracle of the plan was not built); '
+             'actuator force is C11. jax.scipy.linalg.solve is interpreted as the exact solution (Gaussian elimination on the terms).',
+        technique='symbolic execution of jaxprs to z3 real terms; QF_NRA equivalence with MuJoCo\'s Euler-step semantics as terms', design='C02 and section 6.2'),
+    'C03': dict(
+        text='PARTIAL. (1) brax\'s own derivative rules (custom JVPs of safe_arccos / safe_arcsin) are compared, on the gradient jaxprs JAX produces, with JAX\'s built-in rules for '
+             'all arguments in (-1,1), at function level and through kinematics of a 2-hinge stack. (2) Finiteness: the gradient jaxpr of a loss on one pipeline step is '
+             'interpreted on symbolic lines through the singular inputs (rest, zero angular velocity, resting contact); every denominator met must be non-zero on the line; a '
+             'vanishing one is replayed with the real jax.grad and reported only if non-finite.',
+        note='Spring finiteness obligations are core; positional / generalized are extended. Derivatives produced purely by JAX rules are trusted. Steps 2-5 outside.',
+        technique='symbolic execution of jax.grad jaxprs; differential oracle between derivative rules; definedness obligations (QF_NRA) on symbolic lines', design='C03 and section 6.2'),
+    'C04': dict(
+        text='Inductive step: spring / positional step with EVERY State array field an independent symbolic input (masses = model constants), control symbolic, and (two-body '
+             'scenes) arbitrary symbolic contact geometry: total linear momentum changes by exactly (sum m) g dt. Decided on the additive skeleton of the terms (large non-linear '
+             'chunks abstracted to fresh variables: unsat is sound). Rest clause with Tier B configurations.',
+        note='A sat answer of the abstraction is confirmed by a witness search on the real code before it is reported. contact.get is stubbed in the two-body scenes only.',
+        technique='symbolic execution of jaxprs; skeleton abstraction + QF_NRA; inductive step over arbitrary states', design='C04'),
+    'C05': dict(
+        text='Rigid-transform equivariance, sibling-order permutation and disconnected components are proved on the traced init+step of the spring pipeline (core) for all '
+             'translations, root positions and all velocity states on a symbolic line through exact rational points (rotations exact rational, non-axis-aligned included); '
+             'positional obligations are extended; generalized only in the thorough tier.',
+        note='Bounds: free root + h / hh (transform), torso with 2-0-1 children (sibling order), two 2-link models (components), one step.',
+        technique='symbolic execution of jaxprs; polynomial identities (QF_NRA) between two symbolic runs', design='C05 and section 6.2'),
+    'C06': dict(
+        text='PARTIAL (single steps). Inert contacts / limits: two XML variants through the real loader, init+step compared output by output (spring: decided, terms identical; '
+             'positional: extended + concrete differential side-check). Push-only and one-impact restitution: free sphere penetrating the ground by symbolic depth with symbolic normal '
+             'speed and elasticity: never pulled in; rebound speed e|v| within the pipeline margin (spring, positional).',
+        note='Outside: 3 s resting / rebound histories, boxes and capsules for push-only, unit-norm of rotations (not decided by solver).',
+        technique='symbolic execution of jaxprs; syntactic + skeleton comparison of two runs; QF_NRA on the sphere scene', design='C06 and section 6.2'),
+    'C07': dict(
+        text='PARTIAL. vmap(f)(batch)[i] == f(batch[i]) for f = init+step of spring / positional (with and without collision geometry) on symbolic members; training wrappers: member 0 '
+             'is independent of member 1\'s symbolic termination schedule / rewards across episode boundaries (two-copy); DomainRandomizationVmapWrapper vs a solo environment built '
+             'from the member\'s system.',
+        note='"jit agrees with eager" is outside (XLA + floating point). Batch 2 (quick) / 3 (thorough).',
+        technique='symbolic execution of vmapped and single jaxprs; term identity / skeleton abstraction; two-copy (2-safety) queries', design='C07'),
+})
+
 NOT_APPLICABLE = {
+    'C12': 'needs a reference mechanical energy / momentum built from an independent mechanics oracle (first-principles spec of DESIGN section C02/C12), which was not '
+           'built in this deliverable; a first-order consistency query without that oracle would compare brax with itself (DESIGN.md section 6.2)',
     'C16': 'whole-program finiteness of 11 environments over 200-1000-step histories with contact switching and float overflow: '
            'outside what a bounded real-arithmetic encoding can decide (DESIGN.md section 3)',
 }
-PENDING = ['C01', 'C02', 'C03', 'C04', 'C05', 'C06', 'C07', 'C08', 'C10', 'C12', 'C13', 'C14', 'C15', 'C17', 'C20']
+PENDING = []
 
 
 def main():
